@@ -1,0 +1,21 @@
+// Copyright 2025 The Go Authors. All rights reserved.
+// Use of this source code is governed by a BSD-style
+// license that can be found in the LICENSE file.
+
+//go:build verif
+
+package md4
+
+import "hash"
+
+// VerifNewAt (build tag "verif" only) returns a digest whose chaining state, buffered tail and
+// total byte count are set directly, so that a history can start at an arbitrary message length
+// (the bit-length encoding of Sum cannot otherwise be observed beyond a few megabytes).
+// len(buffered) must be < BlockSize.
+func VerifNewAt(state [4]uint32, buffered []byte, totalLen uint64) hash.Hash {
+	d := new(digest)
+	d.s = state
+	d.nx = copy(d.x[:BlockSize-1], buffered)
+	d.len = totalLen
+	return d
+}
